@@ -1589,3 +1589,42 @@ mod tests {
         }
     }
 }
+
+/// Addresses of the cells of a [`Histogram`] (verification builds only).
+#[cfg(feature = "verif")]
+#[doc(hidden)]
+#[derive(Clone, Debug)]
+pub struct VerifLayout {
+    pub shard_and_count: usize,
+    pub collect_lock: usize,
+    /// Per shard: (count, sum, buckets).
+    pub shards: Vec<(usize, usize, Vec<usize>)>,
+}
+
+#[cfg(feature = "verif")]
+#[doc(hidden)]
+impl Histogram {
+    /// Addresses of the synchronisation and data cells, for naming them in
+    /// schedules explored by an external scheduler.
+    pub fn verif_layout(&self) -> VerifLayout {
+        fn addr<T>(t: &T) -> usize {
+            t as *const T as usize
+        }
+        let core = &*self.core;
+        VerifLayout {
+            shard_and_count: addr(&core.shard_and_count),
+            collect_lock: addr(&core.collect_lock),
+            shards: core
+                .shards
+                .iter()
+                .map(|s| {
+                    (
+                        addr(&s.count),
+                        addr(&s.sum),
+                        s.buckets.iter().map(addr).collect(),
+                    )
+                })
+                .collect(),
+        }
+    }
+}
